@@ -261,7 +261,16 @@ func DecodeClaimsFromJSON(buf []byte) (IClaims, error) {
 	}
 
 	if found == nil {
-		return nil, errors.New(`could not match profile`)
+		// As with CBOR, in the absence of a profile field Profile1
+		// (PSA_IOT_PROFILE_1), registered as the default, is assumed. A
+		// profile field that is present but matches no registered
+		// profile remains an error.
+		defaultEntry, ok := profilesRegister[""]
+		if !ok || decoded == nil || hasJSONProfileField(decoded) {
+			return nil, errors.New(`could not match profile`)
+		}
+
+		found = defaultEntry.Profile
 	}
 
 	claims := found.GetClaims()
@@ -271,4 +280,16 @@ func DecodeClaimsFromJSON(buf []byte) (IClaims, error) {
 	}
 
 	return claims, nil
+}
+
+// hasJSONProfileField returns true if the decoded JSON object contains a
+// non-null value under the profile field name of any registered profile.
+func hasJSONProfileField(decoded map[string]interface{}) bool {
+	for _, entry := range profilesRegister {
+		if v, ok := decoded[entry.JSONTag]; ok && v != nil {
+			return true
+		}
+	}
+
+	return false
 }
